@@ -77,6 +77,9 @@ TYPES = [("i32", "i32"), ("String", "alloc::string::String"), ("Vec<u8>", "alloc
          ("Result<Vec<u8>, String>", "core::result::Result<alloc::vec::Vec<u8>, alloc::string::String>"),
          ("crate::deep::Beta<Option<crate::Alpha>>", "{crate}::deep::Beta<core::option::Option<{crate}::Alpha>>")]
 
+TYPED_CONSTS = [("u8", "[1, 0]", ["1", "0"], "u8"), ("bool", "[true, false]", ["true", "false"], "bool"), ("u32", "[97, 98]", ["97", "98"], "i64"),
+                ("char", "['a', 'b']", ["a", "b"], "char"), ("i8", "[-1]", ["-1"], "i64"), ("u8", "[255]", ["255"], "u8")]
+
 IDENTS = ["alpha", "beta", "gamma", "delta", "eps", "zeta", "eta", "theta", "iota", "kappa", "lam", "mu", "nu", "xi", "omi", "pi", "rho", "sigma", "tau", "ups",
           "b1", "b2", "b10", "b02", "x9", "x10", "x100", "r#match", "r#type", "r#loop", "Upper", "mixedCase", "with_under", "n0", "n00", "zz9",
           "f1", "f2", "f3", "f4", "f5", "f6", "f7", "f8", "f9", "f10", "f11", "f12", "g1", "g2", "g3", "g4", "g5", "g6", "g7", "g8"]
@@ -274,7 +277,7 @@ def gen_program(rng, crate, index, size):
             dump_extra = "args"
             if form == 4:
                 b.shared_args_eval = True
-        elif kind in ("types", "consts", "consts_ext", "both", "types_args", "consts_args"):
+        elif kind in ("types", "consts", "consts_ext", "consts_typed", "both", "types_args", "consts_args"):
             b.kind = "generic"
             tys = rng.sample(range(len(TYPES)), rng.randrange(1, 4)) if kind in ("types", "both", "types_args") else []
             consts, const_expr = [], None
@@ -284,6 +287,10 @@ def gen_program(rng, crate, index, size):
             elif kind == "consts_ext":
                 ext_consts = [("crate::SIZES_A", [1, 2, 4, 8, 16]), ("crate::SIZES_20", list(range(20, 0, -1))), ("crate::SIZES_1", [3])]
                 const_expr, consts = rng.choice(ext_consts) if force_form is None else ext_consts[force_form]
+            elif kind == "consts_typed":
+                # const parameters of different types whose value lists are byte for byte the same (the compiler may place such
+                # lists at one address): every instantiation is still named by its own value
+                const_ty, const_expr, consts, ckind = TYPED_CONSTS[force_form if force_form is not None else rng.randrange(len(TYPED_CONSTS))]
             elif kind == "both":
                 consts = rng.sample([1, 2, 3, 10, 20], rng.randrange(1, 4))
                 const_expr = "[%s]" % ", ".join(map(str, consts))
@@ -299,7 +306,7 @@ def gen_program(rng, crate, index, size):
             if kind in ("types", "both", "types_args"):
                 gp.append("T: 'static")
             if const_expr is not None:
-                gp.append("const N: usize")
+                gp.append("const N: %s" % (const_ty if kind == "consts_typed" else "usize"))
             if kind == "both" and rng.random() < 0.5:
                 gp.reverse()
             sig_generics = "<%s>" % ", ".join(gp)
@@ -314,11 +321,11 @@ def gen_program(rng, crate, index, size):
             else:
                 body_stmt = 'crate::vrun(%d, "", %s, %s);' % (bid, tyexpr, cvexpr)
             b.types = [TYPES[t][1].replace("{crate}", crate) for t in tys]
-            b.constkind = "i64"
+            b.constkind = ckind if kind == "consts_typed" else "i64"
             b.consts = [str(c) for c in consts]
             if kind in ("types", "types_args"):
                 shape = "generic:%d" % len(tys) if tys else "generic:"
-            elif kind in ("consts", "consts_ext", "consts_args"):
+            elif kind in ("consts", "consts_ext", "consts_args", "consts_typed"):
                 shape = "generic:%d" % len(consts) if consts else "generic:"
                 if empty:
                     shape = "generic:"
@@ -419,6 +426,12 @@ def gen_program(rng, crate, index, size):
         add_bench(sub, 1, nested_ok=False, force_kind="types", force_ident="decode", force_empty=True)
         add_module(sub, 1, 3, force_ident="decode", min_items=2)
         add_bench(sub, 1, nested_ok=False, force_kind="consts", force_empty=True)
+        body.append("}")
+        body.append("mod typed_consts {")
+        body.append("    use std::time::Duration;")
+        sub = [crate, "typed_consts"]
+        for form in rng.sample(range(len(TYPED_CONSTS)), len(TYPED_CONSTS)):
+            add_bench(sub, 1, nested_ok=False, force_kind="consts_typed", force_form=form)
         body.append("}")
         # groups on modules named by raw identifiers: the group's own entry and the module path of its benchmarks must meet
         body.append("mod raw_groups {")
